@@ -1197,8 +1197,12 @@ def _xy_match(y, x, errs: T, exp_x: T) -> Optional[bool]:
         for ya in alts(y):
             py = _perm_of(ya, errs)
             if py is None:
-                wrong = wrong or stored(ya)
-                unmodelled = unmodelled or not stored(ya)
+                # another stored array, or something that does not come from
+                # the result's arrays at all (an axes object, a literal ...)
+                foreign = ya is not None and not any(
+                    z is arrays for z in ya.walk())
+                wrong = wrong or stored(ya) or foreign
+                unmodelled = unmodelled or not (stored(ya) or foreign)
                 continue
             for xa in alts(x):
                 none = xa is None or xa is tm.NONE
